@@ -4,7 +4,7 @@ import json
 import os
 
 
-def make_replay(prop, failure, path):
+def make_replay(prop, failure, path, scen_fail=None):
     """write the replay file; return the VIOLATION-line suffix ('' if a failing input was found)"""
     doc = dict(property=prop,
                failed_obligation=dict(unit=failure.get("unit"), function=failure.get("fn"), kind=failure.get("kind"),
@@ -16,15 +16,15 @@ def make_replay(prop, failure, path):
                failing_input=None,
                note="no-failing-input-found: Verus gives no counterexample; no witness generator is registered for this obligation")
     suffix = "no-failing-input-found"
-    try:
-        import witness
-        w = witness.find(prop, failure)
-        if w:
-            doc["failing_input"] = w
-            doc["note"] = "failing input found by the twin back end / boundary witness search and replayed on the real crate"
-            suffix = ""
-    except ImportError:
-        pass
+    if scen_fail:
+        f, bad, out = scen_fail[0]
+        doc["failing_input"] = dict(kind="scenario (bounded witness search, public API, debug+release)",
+                                    file=os.path.relpath(f, os.path.dirname(os.path.dirname(os.path.abspath(__file__)))),
+                                    scenario=open(f).read(), observed=out, mismatches=bad,
+                                    other_failing_scenarios=[os.path.basename(x[0]) for x in scen_fail[1:]])
+        doc["note"] = ("failing input: the scenario below (program + signal list + driver behaviour) was replayed on the real crate; "
+                       "its observed outcome differs from what the property statement prescribes")
+        suffix = ""
     os.makedirs(os.path.dirname(path), exist_ok=True)
     with open(path, "w") as f:
         json.dump(doc, f, indent=1)
